@@ -102,8 +102,12 @@ void hv_case(uint64_t index)
   { struct hx h; hx_init(&h, T, &R); h.allow_bad_args = 0; h.allow_grouping = 0; h.no_fragile_groups = 1;
     unsigned pre = (unsigned)hv_below(&R, 10);
     for (unsigned k = 0; k < pre; k++) { struct hx_result res; hx_random_op(&h, HX_ANNOTATE | (1u << HX_RESTRICT), &res); hv_desc("  pre: %s -> %d\n", res.desc, res.rc); } }
-  if (wf_check(T, "source.") != 0) { hwloc_topology_destroy(T); return; }
-  unsigned feat = hx_features(T);
+  /* in a third of the cases nothing consults the source between its last modification and get_length/write, so that write() itself has to
+   * bring the distances / memattr caches up to date before copying them */
+  int blind = hv_chance(&R, 1, 3);
+  if (blind) hv_stat("writes_without_prior_query", 1);
+  if (!blind && wf_check(T, "source.") != 0) { hwloc_topology_destroy(T); return; }
+  unsigned feat = blind ? 0 : hx_features(T);
   int disallowed_flag = (hwloc_topology_get_flags(T) & HWLOC_TOPOLOGY_FLAG_INCLUDE_DISALLOWED) != 0;
 
   /* 1. length */
@@ -114,7 +118,7 @@ void hv_case(uint64_t index)
   if (len % PAGE) hv_viol("get_length.not_page_multiple", "length %zu is not a multiple of the page size", len);
   hv_max("max_length", len);
   struct hv_str tcanon, txml; hv_str_init(&tcanon); hv_str_init(&txml);
-  canon_dump(T, CANON_EQUIV, &tcanon); xml_of(T, &txml);
+  if (!blind) { canon_dump(T, CANON_EQUIV, &tcanon); xml_of(T, &txml); }
 
   /* 2. write at a page-aligned offset, guard region right after the mapping */
   uint64_t off = PAGE * hv_below(&R, 9); if (hv_chance(&R, 1, 2)) off = 0;
@@ -131,8 +135,9 @@ void hv_case(uint64_t index)
   if (wr != 0) { hv_viol("write.failed", "write with the length of get_length failed, errno %d (%s)", errno, strerror(errno)); goto out; }
   if (range_mapped(base, len) == 1) hv_viol("write.left_mapped", "the range is still mapped after write returned");
   { struct stat st; if (fstat(fd, &st) == 0 && (uint64_t)st.st_size < off + len) hv_viol("write.file_short", "file is %lld bytes, offset+length is %llu", (long long)st.st_size, (unsigned long long)(off + len)); }
+  if (blind) { hv_ctxkey("source_after_blind_write"); if (wf_check(T, "source.") != 0) goto out; feat = hx_features(T); canon_dump(T, CANON_EQUIV, &tcanon); xml_of(T, &txml); }
   /* the source is not changed by being written */
-  { struct hv_str again; hv_str_init(&again); canon_dump(T, CANON_EQUIV, &again); const char *d = canon_diff(&tcanon, &again); if (d) hv_viol("write.changed_source", "write changed the source topology: %s", d); hv_str_free(&again); }
+  if (!blind) { struct hv_str again; hv_str_init(&again); canon_dump(T, CANON_EQUIV, &again); const char *d = canon_diff(&tcanon, &again); if (d) hv_viol("write.changed_source", "write changed the source topology: %s", d); hv_str_free(&again); }
 
   /* 3. mismatching arguments */
   hv_ctxkey("adopt_invalid");
